@@ -1254,7 +1254,17 @@ pub broadcast proof fn lemma_deque_len_fits<T: Wire>(v: VecDeque<T>)
 //@ end
 
 
-// Encode for VecDeque<T> iterates `&VecDeque` (no vstd model of vec_deque::Iter): not under contract, bounded run only
+//@ impl crates/serialize/src/encode.rs :: impl<T: Encode> Encode for VecDeque<T>
+//@ member encode
+//@ head
+        broadcast use lemma_concat_take_step, lemma_take_all, lemma_cat_empty, lemma_deque_len_fits;
+//@ loop 0 iter __it
+//@ loop 0 itercall
+//@ loop 0 inv
+            invariant encoder.out() =~= old(encoder).out() + leb(self@.len()) + concat(self@.take(__it.index@ as int)),
+//@ loop 0 head
+            proof { lemma_concat_take_step(self@, __it.index@ as int); }
+//@ end
 
 } // verus!
 fn main() {}
